@@ -238,7 +238,7 @@ class C20Machine(Machine):
                    {'op': 'restart', 'kind': rng.choice(RESTARTS), 'fresh': False}]
         eqop = None
         if rng.chance(0.5):
-            eqop = rng.choice(['same', 'event', 'keyword', 'analysis'])
+            eqop = rng.choice(['same', 'event', 'keyword', 'analysis', 'late_event'])
         case = {'spec': spec, 'ops': ops, 'eq': eqop, 'eqseed': rng.randint(0, 10 ** 6)}
         if rng.chance(0.12):
             case['fileobj'] = True
@@ -333,6 +333,25 @@ class C20Machine(Machine):
                 out['digest'] = log.digest()
                 out['evals'] = 1
                 return out
+            # two loads of the same file are independent objects: annotating a third, throw-away load must not
+            # show in the lineages loaded before it, and a load made afterwards equals them
+            if not case.get('fileobj'):
+                try:
+                    p0 = fpm.sample_state(P, exact=False)
+                    X0 = F.io.FCSData(path)
+                    X0.analysis['__verif_other_load__'] = 'x'
+                    X0.text['__verif_other_load__'] = 'x'
+                    if X0.size:
+                        X0.view(np.ndarray).flat[0] = 0
+                    Y0 = F.io.FCSData(path)
+                    for nm, obj in (('earlier', P), ('later', Y0)):
+                        df = fpm.diff_fields(p0, fpm.sample_state(obj, exact=False))
+                        if df:
+                            V.append(violation('C20/loads-not-independent', nm + '/' + '+'.join(df),
+                                               'editing one load of a file changed the %s load of the same file in %s' % (nm, df)))
+                    bump(out['probes'], 'independent_loads_checked')
+                except Exception as e:
+                    V.append(violation('C20/restart-raises', 'reload/' + type(e).__name__, str(e)[:200]))
             done = []
             last_restart = 'load'
             for op in case['ops']:
@@ -509,10 +528,30 @@ class C20Machine(Machine):
         if kind == 'same':
             log.add('eq', 'same')
             return
+        if kind == 'late_event' and spec['datatype'] == 'I':
+            # the same path re-written with ONE event changed far down a longer file
+            big = copy.deepcopy(spec)
+            n = 1100 + r.randrange(2000)
+            big['events'] = [[(7 * i + 3 * j) % max(2, min(int(big['ranges'][j]), 1 << big['widths'][j])) for j in range(len(big['widths']))]
+                             for i in range(n)]
+            try:
+                bb, _ = fcs_ref.build(big)
+            except fcs_ref.LayoutError:
+                return
+            dk.write('f.fcs', bb)
+            try:
+                a1 = F.io.FCSFile(dk.materialise('f.fcs'))
+            except Exception:
+                return
+            spec = big
+            kind = 'event'
+            late = True
+        else:
+            late = False
         s2 = copy.deepcopy(spec)
         changed = None
         if kind == 'event' and s2['events']:
-            i = r.randrange(len(s2['events']))
+            i = r.randrange(len(s2['events'])) if not late else len(s2['events']) - 1 - r.randrange(40)
             j = r.randrange(len(s2['widths']))
             if s2['datatype'] == 'I':
                 bits = min(fcs_ref._mask_bits(s2['ranges'][j]), s2['widths'][j])
@@ -522,13 +561,13 @@ class C20Machine(Machine):
             else:
                 v = s2['events'][i][j]
                 s2['events'][i][j] = 1.0 if v != 1.0 else 2.0
-            changed = 'event'
+            changed = 'event' if not late else 'late-event'
         elif kind == 'keyword' and s2.get('extra'):
             i = r.randrange(len(s2['extra']))
             v = s2['extra'][i][1]
             s2['extra'][i][1] = ('Q' if v[0] != 'Q' else 'R') + v[1:]
             changed = 'keyword'
-        elif kind == 'analysis' and s2.get('analysis'):
+        elif kind == 'analysis' and s2.get('analysis') and s2.get('analysis_raw') is None:
             i = r.randrange(len(s2['analysis']))
             v = s2['analysis'][i][1]
             s2['analysis'][i][1] = ('Q' if v[0] != 'Q' else 'R') + v[1:]
